@@ -6,7 +6,7 @@
    over a script with push/pop frames; [spec_bytes] the bytes the protocol prescribes; [run_dop]/[run_dops] the getters. *)
 From Coq Require Import List ZArith.
 From SV Require Import Wire.Bytes Wire.Varint Wire.Crc Wire.Prim Wire.PushPop Wire.CorrPrim
-  Wire.VarintProofs Wire.PrimProofs Wire.PrimThms Wire.Records Wire.RecordsProofs Wire.BatchProofs.
+  Wire.VarintProofs Wire.PrimProofs Wire.PrimThms Wire.Records Wire.RecordsProofs Wire.BatchProofs Wire.MsetProofs.
 Import ListNotations.
 Open Scope Z_scope.
 
@@ -102,3 +102,68 @@ Theorem c09_records_reencode : forall (compress : Z -> list Z -> option (list Z)
   batch_ok b -> batch_ops compress (norm_batch b) = batch_ops compress b.
 Proof. exact batch_reencode. Qed.
 Print Assumptions c09_records_reencode.
+
+(* Records (magic-byte peek): a batch is recognised as a batch. *)
+Theorem c09_records_roundtrip_top_batch : forall (compress decompress : Z -> list Z -> option (list Z)),
+  (forall c x y, compress c x = Some y -> decompress c y = Some x) ->
+  forall depth b ops bs, batch_ok b -> batch_ops compress b = inr ops -> spec_bytes ops = inr bs ->
+  forall d rest, at_ d (bs ++ rest) -> len (raw d) < MAXLEN ->
+  exists d', records_decode_top decompress depth d = Ok (RDefault (norm_batch b)) d' /\ raw d' = raw d /\ off d' = off d + len bs.
+Proof. exact top_roundtrip_batch. Qed.
+Print Assumptions c09_records_roundtrip_top_batch.
+
+(* Legacy messages (magic 0 and 1): one MessageBlock decodes back: nil vs empty key / value kept, timestamp truncated to
+   milliseconds (dropped for magic 0), the nested set of a compressed wrapper being whatever the nested decoder
+   makes of the decompressed value ([nested_for]). *)
+Theorem c09_records_roundtrip_block : forall (compress decompress : Z -> list Z -> option (list Z)),
+  (forall c x y, compress c x = Some y -> decompress c y = Some x) ->
+  forall nested o m mo bb s d rest,
+  in_i64 o -> msg_ok m -> message_ops compress m = inr mo -> spec_bytes (block_ops o mo) = inr bb ->
+  nested_for nested m s -> at_ d (bb ++ rest) -> len (raw d) < MAXLEN ->
+  exists d', block_decode_with (message_decode_with decompress nested) d = (Ok (o, norm_msg m s) d', o) /\
+             moved d d' (len bb) 0 /\ peek_int8 MAGIC_OFFSET d = Ok (let '(mkMsg _ _ _ _ _ v _) := m in v) d.
+Proof. exact block_roundtrip. Qed.
+Print Assumptions c09_records_roundtrip_block.
+
+(* A MessageSet of plain messages and compressed wrapper messages (one level: the wrapper's value is the encoding of
+   a set of plain messages) that fills its buffer decodes back, the wrapper carrying the decoded inner set. *)
+Theorem c09_records_roundtrip_mset : forall (compress decompress : Z -> list Z -> option (list Z)),
+  (forall c x y, compress c x = Some y -> decompress c y = Some x) ->
+  forall k p ov bs bs' ops bytes m0,
+  wrapped_blocks compress bs bs' -> mset_ops compress (mkSet p ov bs) = inr ops -> spec_bytes ops = inr bytes -> len bytes < MAXLEN ->
+  exists d', mset_decode decompress (S (S k)) (mkDec bytes 0 m0 []) = Ok (mkSet false false bs') d' /\
+             off d' = len bytes /\ mem d' = m0.
+Proof. exact mset_roundtrip_wrapped. Qed.
+Print Assumptions c09_records_roundtrip_mset.
+
+Theorem c09_records_roundtrip_top_mset : forall (compress decompress : Z -> list Z -> option (list Z)),
+  (forall c x y, compress c x = Some y -> decompress c y = Some x) ->
+  forall k p ov o m r bs' ops bytes,
+  wrapped_blocks compress (MCons o m r) bs' -> mset_ops compress (mkSet p ov (MCons o m r)) = inr ops -> spec_bytes ops = inr bytes ->
+  len bytes < MAXLEN ->
+  exists d', records_decode_top decompress (S (S k)) (mkDec bytes 0 0 []) = Ok (RLegacy (mkSet false false bs')) d' /\ off d' = len bytes.
+Proof. exact top_roundtrip_mset. Qed.
+Print Assumptions c09_records_roundtrip_top_mset.
+
+(* Request header (header versions 1 and 2; no request type has header version 0), response header, control record. *)
+Theorem c09_request_header_roundtrip : forall hv_of hv key version corr cid d rest,
+  1 <= hv <= 2 -> hv_of key version = Some hv -> in_i16 key -> in_i16 version -> in_i32 corr -> len cid <= MAX_INT16 ->
+  at_ d (request_header_bytes hv key version corr cid ++ rest) ->
+  okm (request_header_decode hv_of d) (key, version, corr, cid) d (len (request_header_bytes hv key version corr cid)) (len cid).
+Proof. exact request_header_rt. Qed.
+Theorem c09_request_bytes : forall hv key version corr cid body bb, 1 <= hv -> spec_bytes body = inr bb ->
+  spec_bytes (request_ops hv key version corr cid body) =
+  inr (be 4 (len (request_header_bytes hv key version corr cid ++ bb)) ++ request_header_bytes hv key version corr cid ++ bb).
+Proof. exact request_ops_bytes. Qed.
+Theorem c09_response_header_roundtrip : forall version length corr d rest,
+  4 < length <= MAX_RESPONSE_SIZE -> in_i32 corr ->
+  at_ d (pbytes ([PInt32 length; PInt32 corr] ++ (if 1 <=? version then [PEmptyTagged] else [])) ++ rest) ->
+  exists d', response_header_decode version d = Ok (length, corr) d' /\ raw d' = raw d /\ off d' = off d + 8 + (if 1 <=? version then 1 else 0).
+Proof. exact response_header_rt. Qed.
+Theorem c09_control_record_roundtrip : forall (c : control_record) key value krest vrest,
+  cr_type c <> CRUnknown -> in_i16 (cr_version c) -> in_i32 (cr_epoch c) ->
+  at_ key (pbytes [PInt16 (cr_version c); PInt16 (match cr_type c with CRAbort => 0 | _ => 1 end)] ++ krest) ->
+  at_ value (pbytes [PInt16 (cr_version c); PInt32 (cr_epoch c)] ++ vrest) ->
+  exists key', fst (control_decode key value) = Ok c key'.
+Proof. exact control_record_rt. Qed.
+Print Assumptions c09_control_record_roundtrip.
